@@ -53,6 +53,8 @@ def run(R):
         r4(R, m)
     if R.want("C15.R5"):
         r5(R, m)
+    if R.want("C15.R6"):
+        r6(R, m)
 
 
 def r1(R, m):
@@ -357,6 +359,50 @@ def r4(R, m):
     z = [a for a in ast.walk(pm) if isinstance(a, ast.Assign) and src(a.targets[0]) == "out"]
     R.check(len(z) == 1 and src(z[0].value).replace(" ", "").startswith("np.zeros((7,self.nlabel)"), "C15.R4", REL, pm.lineno, "pks_table.pk2dmerge", "out = zeros((7, nlabel))",
             "the accumulator does not start at zero with one column per merged peak")
+
+
+def r6(R, m):
+    """the per-2D-peak table (pks_table.pk2d / n_pk2d) and the merged table (pk2dmerge / numbapkmerge) describe the same peaks: a merged
+    peak's position is the intensity weighted mean of its members' positions only if both kernels read the same per-peak quantities -
+    s = srI/sI, f = scI/sI, omega and dty looked up by the peak's frame, with no further arithmetic on one side only."""
+    R.rule("C15.R6", "n_pk2d (2D peak table): s_raw = srI/sI, f_raw = scI/sI, omega = omega.flat[frame], dty = dty.flat[frame] - the same "
+                     "quantities numbapkmerge averages, nothing wrapped, scaled or offset on one side only")
+    fn = m.func("n_pk2d")
+    lp = [l for l in ast.walk(fn) if isinstance(l, ast.For)]
+    R.shape(len(lp) == 1, "C15.R6", REL, "n_pk2d", "the loop over 2D peaks")
+    k = src(lp[0].target)
+    pn = [a.arg for a in fn.args.args]
+    R.shape(len(pn) == 7, "C15.R6", REL, "n_pk2d", "the seven parameters s1, sI, srI, scI, frm, omega, dty")
+    s1, sI, srI, scI, frm, om, dt = pn
+    KEEP = tuple(pn) + (k,)
+    rs = lambda n: src(pyfacts.resolved(fn, n, 4, keep=KEEP)).replace(" ", "")
+    rets = [r for r in ast.walk(fn) if isinstance(r, ast.Return)]
+    R.shape(len(rets) == 1 and isinstance(rets[0].value, ast.Tuple) and len(rets[0].value.elts) == 4, "C15.R6", REL, "n_pk2d", "return s_raw, f_raw, omega, dty")
+    outs = [src(e) for e in rets[0].value.elts]
+    want = {0: ("%s[%s]/%s[%s]" % (srI, k, sI, k), "slow centre srI/sI"), 1: ("%s[%s]/%s[%s]" % (scI, k, sI, k), "fast centre scI/sI"),
+            2: ("%s.flat[%s[%s]]" % (om, frm, k), "omega of the peak's frame"), 3: ("%s.flat[%s[%s]]" % (dt, frm, k), "dty of the peak's frame")}
+    for pos, name in enumerate(outs):
+        st = [a for a in ast.walk(lp[0]) if isinstance(a, ast.Assign) and isinstance(a.targets[0], ast.Subscript) and src(a.targets[0].value) == name]
+        R.shape(len(st) == 1 and src(st[0].targets[0].slice) == k, "C15.R6", REL, "n_pk2d", "one store %s[%s] = ... in the loop" % (name, k))
+        got = rs(st[0].value)
+        canon = lambda t: t.replace(".ravel()[", ".flat[").replace(".reshape(-1)[", ".flat[").replace("float(", "(")
+        same = canon(got).strip("()") == want[pos][0]
+        if not same:
+            # positive evidence of a different quantity: arithmetic on top of (or instead of) the expected load / ratio
+            gnode = pyfacts.resolved(fn, st[0].value, 4, keep=KEEP)
+            extra = [x for x in ast.walk(gnode) if isinstance(x, ast.BinOp) and not (pos < 2 and isinstance(x.op, ast.Div))]
+            R.shape(bool(extra), "C15.R6", REL, "n_pk2d", "the value stored into %s (%s) as %s" % (name, got, want[pos][0]))
+        R.check(same, "C15.R6", REL, st[0].lineno, "n_pk2d", "%s[%s] = %s  (%s)" % (name, k, got, want[pos][1]),
+                "the 2D peak table stores %s where the merge kernel averages %s: the merged peak is no longer the intensity weighted mean of the "
+                "rows of the 2D table (e.g. an omega wrapped modulo 360 on one side differs by 360 for scans that start below 0 or span "
+                "several turns)" % (got, want[pos][0]))
+    # the caller passes the roles in this order
+    pk = m.func("pks_table.pk2d")
+    call = [c for c in ast.walk(pk) if isinstance(c, ast.Call) and pyfacts.dotted(c.func) == "n_pk2d"]
+    R.shape(len(call) == 1, "C15.R6", REL, "pks_table.pk2d", "the n_pk2d call")
+    args = [pyfacts.resolved_src(pk, a, 2, keep=("self", "omega", "dty")).replace(" ", "") for a in call[0].args]
+    R.check(len(args) == 7 and args[5:] == ["omega", "dty"], "C15.R6", REL, call[0].lineno, "pks_table.pk2d", "n_pk2d(..., omega, dty) %s" % args[5:],
+            "omega and dty reach the kernel in another order or transformed")
 
 
 LISTED = {"numbalabelNd": "premises of the min-propagation argument are checked by C15.R1",
